@@ -42,7 +42,8 @@ Record rc_desc := {
   rc_copy_incs : bool;          (* copy constructor increments the shared counter     *)
   rc_destroy_decs : bool;       (* destructor decrements it                           *)
   rc_destroy_frees : bool;      (* ... and frees the shared block when it reaches 0   *)
-  rc_assign : rc_order }.       (* what operator= does, in which order                *)
+  rc_assign : rc_order;         (* what operator= does, in which order                *)
+  rc_counter_wide : bool }.     (* the counter type is at least as wide as int: a 16-bit counter wraps at 65536 live copies *)
 
 Record method_desc := {
   m_name : string;              (* name@line of the definition *)
@@ -153,7 +154,7 @@ Definition rc_ok_b (d : class_desc) : bool :=
   match cd_shared d, cd_rc d with
   | [], _ => true
   | _ :: _, None => false
-  | _ :: _, Some r => rc_copy_incs r && rc_destroy_decs r && rc_destroy_frees r && rc_order_ok_b (rc_assign r)
+  | _ :: _, Some r => rc_copy_incs r && rc_destroy_decs r && rc_destroy_frees r && rc_order_ok_b (rc_assign r) && rc_counter_wide r
   end.
 
 Definition shared_read_ok_b (d : class_desc) (x : string) : bool := negb (mem x (cd_shared d)) || rc_ok_b d.
